@@ -25,7 +25,7 @@ func init() {
 
 func genC10(r *Rng, tier string) *Plan {
 	g := NewHistGen(r, "C10")
-	o := ForestOpts{MaxEnts: 5, MaxDepth: 4, Mix: mixFast, MaxExts: 3, Dirs: r.Bool(), Aliases: r.Bool(), ExtCase: r.Chance(1, 3),
+	o := ForestOpts{Bulk: 30, MaxEnts: 5, MaxDepth: 4, Mix: mixFast, MaxExts: 3, Dirs: r.Bool(), Aliases: r.Bool(), ExtCase: r.Chance(1, 3),
 		KeyIDs: true, Validity: valRelative, JSONMix: r.Chance(1, 3)}
 	g.AddForest(o, r.Chance(1, 2))
 	for _, e := range g.Ents {
@@ -70,11 +70,21 @@ func genC10(r *Rng, tier string) *Plan {
 	}
 	if r.Chance(3, 4) {
 		g.Run(DefaultFlags, "setup")
+		g.P.Meta["setup-run"] = "1"
 		if r.Chance(1, 4) {
 			g.MakeCsrLeaf()
 		}
 	} else if flags&FlagM == 0 {
 		flags |= FlagM // without artifacts a run that lacks -m cannot build chains bottom-up reliably
+	}
+	if g.P.Meta["setup-run"] == "1" && r.Chance(1, 3) {
+		// artifacts edited by hand: text after the last block; the certificate in the file is still there
+		for _, e := range g.Ents {
+			if r.Chance(1, 3) {
+				g.P.Add(Op{K: "append-art", Ent: e.ID, Data: Pick(r, []string{"\n", "# kept by hand\n", "\r\n", "trailing text", "\n\n# note\n"}), Label: "trailing-text"})
+				g.P.Meta["trailing-text"] = "1"
+			}
+		}
 	}
 	g.PreOps(r.Intn(5), flags&FlagM != 0)
 	g.Run(flags, "first")
@@ -125,7 +135,7 @@ func exploreC10(t *testing.T, seed uint64, idx int, tier string, sink *Sink) {
 	}
 	sink.Cell("lane:S")
 	sink.Report(w)
-	if len(w.Viol) == 0 && w.Harness == "" && idx%12 == 0 {
+	if len(w.Viol) == 0 && w.Harness == "" && (idx%12 == 0 || plan.Meta["trailing-text"] != "" && idx%3 == 0) {
 		laneP_C10(t, plan, w, sink)
 	}
 }
